@@ -793,7 +793,7 @@ fn qos2_rec_rel(nb: usize) {
 macro_rules! qos2_rec_rel_inst {
     ($name:ident, $nb:expr) => {
         vharness! {
-            //@ props: C14 C06
+            //@ props: C14
             //@ env: VERIF_MVEC_CAP=1
             //@ tier: quick
             //@ functions: v3::shared::MqttShared::{pkt_ack, pkt_ack_inner (PUBREC branch), release_publish}, pool channel (model)
@@ -813,7 +813,7 @@ qos2_rec_rel_inst!(sh3_qos2_rec_rel_b0, 0);
 qos2_rec_rel_inst!(sh3_qos2_rec_rel_b1, 1);
 
 vharness! {
-    //@ props: C14 C06
+    //@ props: C14
     //@ env: VERIF_MVEC_CAP=1
     //@ tier: quick
     //@ functions: v3::shared::MqttShared::{pkt_ack, pkt_ack_inner (PUBCOMP branch)}
